@@ -196,16 +196,20 @@ func (wb *workerBinder[T]) WithPersistentPriorityQueue(pq IPersistentPriorityQue
 }
 
 func (wb *workerBinder[T]) WithDistributedQueue(dq IDistributedQueue) DistributedQueue[T] {
-	defer dq.Subscribe(wb.handleQueueSubscription)
+	// deferred calls run last-in-first-out: register, subscribe, start. The
+	// subscription is active before the run starts, so an item announced in
+	// between is covered by the wake-up start() raises
 	defer wb.start()
+	defer dq.Subscribe(wb.handleQueueSubscription)
 	defer wb.queues.Register(dq)
 
 	return NewDistributedQueue[T](dq)
 }
 
 func (wb *workerBinder[T]) WithDistributedPriorityQueue(dpq IDistributedPriorityQueue) DistributedPriorityQueue[T] {
-	defer dpq.Subscribe(wb.handleQueueSubscription)
+	// register, subscribe, start (see WithDistributedQueue)
 	defer wb.start()
+	defer dpq.Subscribe(wb.handleQueueSubscription)
 	defer wb.queues.Register(dpq)
 
 	return NewDistributedPriorityQueue[T](dpq)
